@@ -177,7 +177,9 @@ pub fn run(ctx: &mut Ctx, _replay: Option<&[String]>) {
                 // 20 iterations (otherwise the reference itself would iterate for hours): the result must then be the same as under limit 20
                 if rng.chance(1, 6) {
                     let dep = match &pattern { Some(p) => Puncturer::new(p).depuncture(&sent).unwrap(), None => sent.clone() };
-                    let (imp3, h3) = (*imp, h.clone());
+                    // (the very decoder the reference below uses: same name, matrix parsed back from the same alist text -- decoding is a
+                    // deterministic function of name, matrix object and LLRs, so the reference terminates within 20 iterations as well)
+                    let (imp3, h3) = (*imp, SparseMatrix::from_alist(&h.alist()).unwrap());
                     let decodes = crate::guarded(move || imp3.build_decoder(h3).decode(&dep, 20).is_ok()).unwrap_or(false);
                     if decodes { limit = *rng.pick(&[u32::MAX, 1u32 << 31, (1u32 << 31) + 7, 65536, 65541, 256, 1 << 20]); }
                 }
